@@ -44,8 +44,8 @@ Definition id_rsa : N := 13.       (* RSA certificate and key *)
 
 (* ---------- terms and messages ----------------------------------------------------------------- *)
 Inductive mtag :=
-| GClientHello (vers : N) (suites : list N) (ticket : bool)
-| GServerHello (vers suite : N) (ticket : bool)
+| GClientHello (vers : N) (random : N) (suites : list N) (ticket : bool)
+| GServerHello (vers : N) (random : N) (suite : N) (ticket : bool)
 | GCertificate (ids : list N)
 | GServerKeyExchange (signer eph : N)
 | GCertificateRequest
@@ -65,15 +65,18 @@ Definition l_keyexp : N := 2.
 Definition l_cfin : N := 3.
 Definition l_sfin : N := 4.
 Definition l_ekm : N := 5.
+(* the 32 random bytes each side draws for its hello (symbolic atoms).  A side uses its OWN atom and the one it
+   RECEIVED in the peer's hello, so agreement on the secrets is a consequence of the exchange, not of sharing
+   constants. *)
 Definition rand_c : N := 1.
 Definition rand_s : N := 2.
 
 (* prf.go: masterFromPreMasterSecret, finishedHash.clientSum / serverSum, ekmFromMasterSecret *)
-Definition masterFromPreMasterSecret (pms : term) : term := TPrf pms l_master (SRands rand_c rand_s).
+Definition masterFromPreMasterSecret (pms : term) (cr sr : N) : term := TPrf pms l_master (SRands cr sr).
 Definition clientSum (ms : term) (tr : list mtag) : term := TPrf ms l_cfin (SHash tr).
 Definition serverSum (ms : term) (tr : list mtag) : term := TPrf ms l_sfin (SHash tr).
-Definition ekmFromMasterSecret (ms : term) : term := TPrf ms l_ekm (SRands rand_c rand_s).
-Definition keyBlockTerm (ms : term) : term := TPrf ms l_keyexp (SRandsRev rand_s rand_c).
+Definition ekmFromMasterSecret (ms : term) (cr sr : N) : term := TPrf ms l_ekm (SRands cr sr).
+Definition keyBlockTerm (ms : term) (cr sr : N) : term := TPrf ms l_keyexp (SRandsRev sr cr).
 
 (* decidable equality of terms (used where the code compares verify data) *)
 Definition mtag_eq_dec : forall a b : mtag, {a = b} + {a <> b}.
@@ -138,11 +141,11 @@ Definition pms_atom : N := 1.
 Definition client (a : acfg) : M result :=
   let c := a_ccfg a in
   let gm := is_gm (c_kind c) in
-  let hello := GClientHello (hello_vers (c_kind c)) (hello_suites c) (c_cache c) in
+  let hello := GClientHello (hello_vers (c_kind c)) rand_c (hello_suites c) (c_cache c) in
   mdo _ <- send (Hs hello None);
   mdo sh <- readHandshake;
   match fst sh with
-  | GServerHello vers suite tk =>
+  | GServerHello vers sr suite tk =>   (* sr: the server random as received *)
     (* GM: serverHello.vers must be VersionGMSSL; TLS: pickTLSVersion (mutualVersion, at least TLS 1.0) *)
     if negb (if gm then N.eqb vers gen_VersionGMSSL
              else N.leb gen_VersionTLS10 vers && N.leb vers (client_maxvers (c_kind c))) then abort
@@ -196,7 +199,7 @@ Definition client (a : acfg) : M result :=
                        then let cv := GCertificateVerify (hd 0 chain) in
                             mdo _ <- send (Hs cv None); ret (tr ++ [cv])
                        else ret tr);
-            let ms := masterFromPreMasterSecret pms in
+            let ms := masterFromPreMasterSecret pms rand_c sr in
             (* establishKeys; sendFinished *)
             mdo _ <- send CCS;
             mdo _ <- send (Hs (GFinished true) (Some (clientSum ms tr)));
@@ -211,7 +214,7 @@ Definition client (a : acfg) : M result :=
             match f with
             | (GFinished false, Some v) =>
               if term_eq_dec v (serverSum ms tr)
-              then ret (mkRes vers suite ids ms (ekmFromMasterSecret ms) (keyBlockTerm ms))
+              then ret (mkRes vers suite ids ms (ekmFromMasterSecret ms rand_c sr) (keyBlockTerm ms rand_c sr))
               else abort
             | _ => abort
             end
@@ -240,7 +243,7 @@ Definition server (a : acfg) : M result :=
   let cfg := a_scfg a in
   mdo ch <- readHandshake;
   match fst ch with
-  | GClientHello hv offered ctk =>
+  | GClientHello hv cr offered ctk =>   (* cr: the client random as received *)
     match server_version (s_mode cfg) hv with
     | None => abort
     | Some (gm, vers) =>
@@ -251,7 +254,7 @@ Definition server (a : acfg) : M result :=
         | None => abort
         | Some suite =>
           let tk := ctk && negb (s_disabled cfg) in
-          let sh := GServerHello vers suite tk in
+          let sh := GServerHello vers rand_s suite tk in
           mdo _ <- send (Hs sh None);
           mdo _ <- send (Hs (GCertificate certs) None);
           let tr := [fst ch; sh; GCertificate certs] in
@@ -287,7 +290,7 @@ Definition server (a : acfg) : M result :=
             mdo pms <- (if N.eqb kk 2 then ret (TDh payload eph_s)
                         else if N.eqb tokey (if gm then nth 1 certs 0 else hd 0 certs) then ret (TPms payload)
                         else abort);
-            let ms := masterFromPreMasterSecret pms in
+            let ms := masterFromPreMasterSecret pms cr rand_s in
             mdo tr <- (match peer with
                        | [] => ret tr
                        | leaf :: _ =>
@@ -309,7 +312,7 @@ Definition server (a : acfg) : M result :=
                 mdo tr <- (if tk then mdo _ <- send (Hs GNewSessionTicket None); ret (tr ++ [GNewSessionTicket]) else ret tr);
                 mdo _ <- send CCS;
                 mdo _ <- send (Hs (GFinished false) (Some (serverSum ms tr)));
-                ret (mkRes vers suite peer ms (ekmFromMasterSecret ms) (keyBlockTerm ms))
+                ret (mkRes vers suite peer ms (ekmFromMasterSecret ms cr rand_s) (keyBlockTerm ms cr rand_s))
               else abort
             | _ => abort
             end
